@@ -108,6 +108,13 @@ Theorem C07_ser_children_only :
 Proof. exact ser_children_only. Qed.
 Print Assumptions C07_ser_children_only.
 
+(* rcdom's traversal as written (a deque of Open/Close operations popped from the
+   front) issues exactly the calls of the recursive traversal, for every tree *)
+Theorem C07_rcdom_deque_is_preorder :
+  forall v o n, ser_deque_bytes v o n = ser_bytes v o n.
+Proof. exact ser_deque_bytes_is_ser_bytes. Qed.
+Print Assumptions C07_rcdom_deque_is_preorder.
+
 (* C07_inner_outer : forall v o name attrs ch, outer = start_tag ++ inner ++ end_tag
    is FALSE for the code as it is: *)
 Theorem C07_inner_outer_refuted :
